@@ -156,4 +156,33 @@ def leafIds : GF → Nat → List Nat
   | .cons _ _ kids rest, n =>
     (match kids with | .nil => [n] | _ => []) ++ leafIds kids (n + 1) ++ leafIds rest (n + 1 + kids.size)
 
+/-! ### `summary()["depth"]` -/
+
+/-- `parse_tree` seen from a node: the edge that leads to it -/
+def parentOf (es : List Edge) (x : Nat) : Option Nat := (es.find? (fun e => e.2.1 == x)).map (·.1)
+
+/-- number of edges on the path from a root to `x` (`nx.shortest_path_length(tree, 0)[x]` for the nodes reachable from 0) -/
+def levelOf (es : List Edge) : Nat → Nat → Nat
+  | 0, _ => 0
+  | f + 1, x => match parentOf es x with
+    | none => 0
+    | some p => 1 + levelOf es f p
+
+def maxList : List Nat → Nat
+  | [] => 0
+  | x :: xs => max x (maxList xs)
+
+/-- Model of `max(nx.shortest_path_length(parse_tree, 0).values())` on a tree of `n` nodes -/
+def depthOf (es : List Edge) (n : Nat) : Nat := maxList ((List.range n).map (levelOf es n))
+
+/-- Spec: pre-order ids with their nesting depth -/
+def levelIds : GF → Nat → Nat → List (Nat × Nat)
+  | .nil, _, _ => []
+  | .cons _ _ kids rest, n, d => (n, d) :: (levelIds kids (n + 1) (d + 1) ++ levelIds rest (n + 1 + kids.size) d)
+
+/-- Spec: residues on the longest root-to-leaf path of a forest -/
+def heightGF : GF → Nat
+  | .nil => 0
+  | .cons _ _ kids rest => max (1 + heightGF kids) (heightGF rest)
+
 end Gly.Plan
